@@ -74,3 +74,25 @@ Example lattice_nonvacuous :
   expand cat [[97%N; 58%N; STAR]] = [[97%N; 58%N; 98%N]; [97%N; 58%N; 99%N]] /\
   expand_not cat [[97%N; 58%N; STAR]] = [[100%N; 58%N; 101%N]].
 Proof. vm_compute. repeat split. Qed.
+
+(* the pattern "*" matches every name: Action "*" is the whole catalogue, NotAction "*" nothing, and "*" absorbs any list *)
+Lemma glob_ci_star a : glob_ci [STAR] a = true.
+Proof.
+  unfold glob_ci, glob_match_ci. change (map lower_cp [STAR]) with [STAR].
+  exact (glob_star_alone N N.eqb N.eqb_eq STAR QM (map lower_cp a) STAR_neq_QM).
+Qed.
+
+Lemma filter_all_true (f : str -> bool) l : (forall a, f a = true) -> filter f l = l.
+Proof. intros H. induction l as [| c l IH]; [reflexivity | cbn [filter]; rewrite H, IH; reflexivity]. Qed.
+Lemma filter_all_false (f : str -> bool) l : (forall a, f a = false) -> filter f l = [].
+Proof. intros H. induction l as [| c l IH]; [reflexivity | cbn [filter]; rewrite H; exact IH]. Qed.
+
+Theorem expand_star cat ps : In [STAR] ps -> expand cat ps = nodup_sort cat /\ expand_not cat ps = [].
+Proof.
+  intros Hin.
+  assert (Hm : forall a, any_match_g glob_ci ps a = true).
+  { intros a. unfold any_match_g. apply existsb_exists. exists [STAR]. split; [exact Hin | apply glob_ci_star]. }
+  unfold expand, expand_not, expand_g, expand_not_g. split.
+  - rewrite (filter_all_true _ cat Hm). reflexivity.
+  - rewrite (filter_all_false _ cat); [reflexivity |]. intros a. rewrite Hm. reflexivity.
+Qed.
